@@ -27,6 +27,7 @@ CONSTANTS
   AdminOps,       \* BOOLEAN: breaker, resume, fee withdrawal, forced recovery
   ResumeScales,   \* e.g. {"same", "down"}: totals an admin supplies on resume
   StartHalted,    \* BOOLEAN: begin right after instantiate (halted) or after an identity resume
+  SamePrefix,     \* BOOLEAN: both chains use the same bech32 prefix (recipient class "both": the flag decides)
   Extras,         \* subset of {"wrongsender", "stray", "matrix", "slippage", "mintto", "direct"}: extra negative / variant calls
   MaxTime, MaxBatches, MaxSeq, MaxN, MaxPk,
   EmitTests       \* BOOLEAN: number transitions and print them (run with -workers 1)
@@ -43,7 +44,8 @@ NatD == "IBCTIA"
 LstD == "LST"
 NatOf(u) == "n:" \o u
 
-Cfg == [natPrefix |-> "celestia", valPrefix |-> "celestiavaloper", tokenDenom |-> "utia",
+Cfg == [natPrefix |-> IF SamePrefix THEN "osmo" ELSE "celestia",
+        valPrefix |-> IF SamePrefix THEN "osmovaloper" ELSE "celestiavaloper", tokenDenom |-> "utia",
         validators |-> {"val1", "val2"}, unbonding |-> Unbonding, staker |-> Staker, collector |-> Collector,
         protoPrefix |-> "osmo", channel |-> Channel, natDen |-> NatD, minStake |-> MinStake,
         oracle |-> OracleAddr, fee |-> FeeRate, treasury |-> TreasuryAddr, monitors |-> {"mon1", "mon2"},
@@ -60,14 +62,14 @@ Init ==
   /\ (EmitTests => /\ TLCSet(1, 0)
                     /\ PrintT("MODEL " \o ToJson([users |-> Users, fee |-> FeeRate, treasury |-> TreasuryAddr,
                                oracle |-> OracleAddr, minStake |-> MinStake, batchPeriod |-> BatchPeriod,
-                               unbonding |-> Unbonding, halted |-> StartHalted, funds |-> StartFunds])))
+                               unbonding |-> Unbonding, halted |-> StartHalted, funds |-> StartFunds, samePrefix |-> SamePrefix])))
 
 ---------------------------------------------------------------------------
 \* ------------------------------------------------------------------ the call alphabet
 StakeCallX(u, a, kind, fails, expected, other) ==
   [m |-> "liquid_stake", s |-> u, funds |-> <<<<NatD, a>>>>,
    mint_to |-> IF kind = "native" THEN NatOf(u) ELSE IF kind = "other" THEN other ELSE "", to_native |-> "none", expected |-> expected,
-   ibc_fail |-> fails, rclass |-> IF kind = "native" THEN "native" ELSE "protocol",
+   ibc_fail |-> fails, rclass |-> IF SamePrefix THEN "both" ELSE IF kind = "native" THEN "native" ELSE "protocol",
    r |-> IF kind = "native" THEN NatOf(u) ELSE IF kind = "other" THEN other ELSE u, skind |-> "eoa"]
 StakeCall(u, a, kind, fails) == StakeCallX(u, a, kind, fails, NoAmt, "")
 UnstakeCall(u, a) == [m |-> "liquid_unstake", s |-> u, funds |-> <<<<LstD, a>>>>]
@@ -130,7 +132,10 @@ Do(call) ==
           /\ PrintT("EDGE " \o ToJson([src |-> sid, id |-> sid', call |-> call, d |-> Digest(r)]))
      ELSE sid' = 0
 
-Stake        == \E u \in Users, a \in StakeAmts, k \in RcvKinds, f \in FailSeqs : Do(StakeCall(u, a, k, f))
+Stake        == \E u \in Users, a \in StakeAmts, k \in RcvKinds, f \in FailSeqs :
+                  IF SamePrefix
+                  THEN \E tn \in {"none", "false", "true"} : Do([StakeCall(u, a, k, f) EXCEPT !.to_native = tn])
+                  ELSE Do(StakeCall(u, a, k, f))
 \* expected_mint_amount exactly met / one above; minting to another protocol-chain account
 ExactMint(a) == LET sweep == w.c.L = 0 /\ w.c.N # 0 IN MintAmount(IF sweep THEN 0 ELSE w.c.N, w.c.L, a)
 StakeVariants == \/ /\ "slippage" \in Extras
